@@ -1,6 +1,7 @@
 //! C15: a real (unstarted) event loop whose turns the harness thread makes, virtual clock, tasks that
 //! block in the *hooked* nanosleep / yield / return.
-//! body: `<max> <step_ms> ; task task …`   task = Z<ms> (hooked nanosleep) | Y<k> (k plain yields) | R
+//! body: `<max> <step_ms> ; task task …`   task = Z<ms> (hooked nanosleep) | Y<k> (k plain yields) | R,
+//!   each optionally `@<ms>`: submitted only when the clock has reached that many ms (default 0)
 //! Protocol: turn; advance the clock by step_ms; … until every task is done (or 400 turns).
 //! out: `fin=<id>:<ms since start at which the task finished>,…` (by id; `-` = never)
 use crate::rng::Rng;
@@ -18,12 +19,14 @@ pub fn gen(r: &mut Rng, thorough: bool) -> String {
     let mut tasks = Vec::new();
     let common = step * r.range(1, 8);
     for _ in 0..n {
-        tasks.push(match r.below(8) {
+        let t = match r.below(8) {
             0 => "R".to_string(),
             1 => format!("Y{}", r.range(1, 4)),
             2 => format!("Z{}", step * r.range(1, 12)),
             _ => format!("Z{common}"),
-        });
+        };
+        // a third of the tasks arrive later, while others are asleep
+        tasks.push(if r.chance(1, 3) { format!("{t}@{}", step * r.range(1, 10)) } else { t });
     }
     format!("{max} {step} ; {}", tasks.join(" "))
 }
@@ -38,30 +41,38 @@ pub fn exec(body: &str, emit: &mut dyn FnMut(&str)) {
     verif::set_virtual_now(t0);
     let mut lp = VLoop::new(max).expect("loop");
     let fin: Rc<RefCell<Vec<Option<u64>>>> = Default::default();
-    let tasks: Vec<String> = tasks.split_whitespace().map(String::from).collect();
-    for (i, t) in tasks.iter().enumerate() {
-        fin.borrow_mut().push(None);
-        let t = t.clone();
-        let log = fin.clone();
-        lp.submit_task(Some(format!("sl{i}")), move |_| {
-            let (h, rest) = t.split_at(1);
-            match h {
-                "Z" => {
-                    let ms: u64 = rest.parse().unwrap();
-                    let ts = libc::timespec { tv_sec: (ms / 1000) as i64, tv_nsec: ((ms % 1000) * 1_000_000) as i64 };
-                    let _ = open_coroutine_core::syscall::nanosleep(None, &ts, std::ptr::null_mut());
+    let tasks: Vec<(String, u64)> = tasks.split_whitespace().map(|t| match t.split_once('@') { Some((a, b)) => (a.to_string(), b.parse().unwrap_or(0)), None => (t.to_string(), 0) }).collect();
+    for _ in 0..tasks.len() { fin.borrow_mut().push(None); }
+    let mut submitted = vec![false; tasks.len()];
+    let submit_due = |lp: &VLoop, now_ms: u64, submitted: &mut Vec<bool>| {
+        for (i, (t, at)) in tasks.iter().enumerate() {
+            if submitted[i] || *at > now_ms { continue; }
+            submitted[i] = true;
+            let t = t.clone();
+            let log = fin.clone();
+            lp.submit_task(Some(format!("sl{i}")), move |_| {
+                let (h, rest) = t.split_at(1);
+                match h {
+                    "Z" => {
+                        let ms: u64 = rest.parse().unwrap();
+                        let ts = libc::timespec { tv_sec: (ms / 1000) as i64, tv_nsec: ((ms % 1000) * 1_000_000) as i64 };
+                        let _ = open_coroutine_core::syscall::nanosleep(None, &ts, std::ptr::null_mut());
+                    }
+                    "Y" => { for _ in 0..rest.parse::<u64>().unwrap() { if let Some(s) = SchedulableSuspender::current() { s.suspend(); } } }
+                    _ => {}
                 }
-                "Y" => { for _ in 0..rest.parse::<u64>().unwrap() { if let Some(s) = SchedulableSuspender::current() { s.suspend(); } } }
-                _ => {}
-            }
-            log.borrow_mut()[i] = Some((open_coroutine_core::common::now() - t0) / 1_000_000);
-            Some(i)
-        }, None, None).expect("submit");
-    }
+                log.borrow_mut()[i] = Some((open_coroutine_core::common::now() - t0) / 1_000_000);
+                Some(i)
+            }, None, None).expect("submit");
+        }
+    };
+    let mut now_ms = 0u64;
     for _ in 0..400 {
+        submit_due(&lp, now_ms, &mut submitted);
         let _ = lp.turn(Duration::from_nanos(1000));
         if fin.borrow().iter().all(|x| x.is_some()) { break; }
         let _ = verif::advance_virtual_now(step * 1_000_000);
+        now_ms += step;
     }
     let s = fin.borrow().iter().enumerate().map(|(i, x)| match x { Some(ms) => format!("{i}:{ms}"), None => format!("{i}:-") }).collect::<Vec<_>>().join(",");
     emit(&format!("fin={s} run={}", lp.running_size()));
